@@ -212,10 +212,153 @@ def sc_torn_frame_blocks_get(env):
     return {"victim_code": p1.exitcode, "get_blocked": blocked}
 
 
+def t_square(x):
+    return x * x
+
+
+def t_fail_on_3(x):
+    if x == 3:
+        raise ValueError("three")
+    return x
+
+
+def t_kill_on_2(x):
+    if x == 2:
+        os.kill(os.getpid(), signal.SIGKILL) if ENV_REAL else SIM_KILL_SELF()
+    return x
+
+
+def t_exit_on_2(x):
+    if x == 2:
+        sys.exit(3)
+    return x
+
+
+ENV_REAL = True
+SIM_KILL_SELF = None
+
+
+def sc_pool_map(env):
+    with env.mp.Pool(3) as p:
+        a = p.map(t_square, range(10))
+        b = list(p.imap(t_square, range(7), 2))
+        c = sorted(p.imap_unordered(t_square, range(7)))
+        d = p.apply(t_square, (5,))
+        e = p.starmap(pow, [(2, 3), (3, 2)])
+    return {"map": a, "imap": b, "imap_unordered_sorted": c, "apply": d, "starmap": e}
+
+
+def sc_pool_exception(env):
+    out = {}
+    with env.mp.Pool(2) as p:
+        try:
+            p.map(t_fail_on_3, range(6))
+            out["map"] = "ok"
+        except ValueError as e:
+            out["map"] = "ValueError %s" % e
+        it = p.imap(t_fail_on_3, range(5))
+        got = []
+        try:
+            for x in it:
+                got.append(x)
+        except ValueError:
+            got.append("ValueError")
+        out["imap"] = got
+        r = p.apply_async(t_fail_on_3, (3,))
+        r.wait(5)
+        out["ready"] = r.ready()
+        out["successful"] = r.successful()
+    return out
+
+
+def sc_pool_worker_killed(env):
+    """a pool worker that is killed while it runs a task: the task is lost (get() would block for
+    ever), the worker is replaced and later tasks are served"""
+    out = {}
+    p = env.mp.Pool(2)
+    r = p.map_async(t_kill_on_2, range(4), 1)
+    try:
+        r.get(timeout=2.0)
+        out["first"] = "returned"
+    except env.mp.TimeoutError:
+        out["first"] = "timeout"
+    out["later"] = p.apply_async(t_square, (4,)).get(timeout=5.0)
+    p.terminate()
+    p.join()
+    return out
+
+
+def sc_pool_sys_exit_in_task(env):
+    out = {}
+    p = env.mp.Pool(2)
+    r = p.map_async(t_exit_on_2, range(4), 1)
+    try:
+        r.get(timeout=2.0)
+        out["first"] = "returned"
+    except env.mp.TimeoutError:
+        out["first"] = "timeout"
+    p.terminate()
+    p.join()
+    return out
+
+
+def sc_pool_close_join(env):
+    p = env.mp.Pool(2)
+    r = p.map_async(t_square, range(5))
+    p.close()
+    p.join()
+    return {"value": r.get(timeout=1.0)}
+
+
+def w_pipe_child(conn, n):
+    for i in range(n):
+        conn.send(("msg", i))
+    conn.close()
+
+
+def sc_pipe_eof(env):
+    out = {}
+    a, b = env.mp.Pipe(duplex=False)  # a: read end, b: write end
+    p = env.mp.Process(target=w_pipe_child, args=(b, 3))
+    p.start()
+    b.close()  # the parent closes its copy of the write end: EOF becomes visible
+    got = []
+    try:
+        while True:
+            got.append(a.recv())
+    except EOFError:
+        got.append("EOF")
+    p.join()
+    out["closed_parent_copy"] = got
+    a2, b2 = env.mp.Pipe(duplex=False)
+    p2 = env.mp.Process(target=w_pipe_child, args=(b2, 1))
+    p2.start()
+    first = a2.recv()
+    p2.join()
+    # the parent still holds b2: no EOF, poll times out
+    out["kept_parent_copy"] = [list(first), a2.poll(0.5)]
+    return out
+
+
+def w_sq_child(q, n):
+    for i in range(n):
+        q.put(i)
+
+
+def sc_simplequeue(env):
+    q = env.mp.SimpleQueue()
+    p = env.mp.Process(target=w_sq_child, args=(q, 4))
+    p.start()
+    got = [q.get() for _ in range(4)]
+    p.join()
+    return {"got": got, "empty": q.empty(), "code": p.exitcode}
+
+
 SCENARIOS = [
     sc_normal_exit, sc_exception_flushes, sc_sys_exit_3, sc_sigkill_prefix, sc_get_timeout_empty, sc_per_worker_fifo,
     sc_dead_means_flushed, sc_exitcode_while_alive, sc_terminate, sc_join_before_drain_big, sc_killed_holding_lock,
-    sc_torn_frame_blocks_get,
+    sc_torn_frame_blocks_get, sc_pool_map, sc_pool_exception, sc_pool_worker_killed, sc_pool_sys_exit_in_task, sc_pool_close_join,
+    sc_pipe_eof, sc_simplequeue,
 ]
 
 
@@ -369,6 +512,7 @@ def run_sim_scenario(fn, seed, pipe=None):
     w = simmp.SimWorld(k, cpu_count=4, pipe_capacity=pipe["capacity"], pipe_buf=pipe["buf"], pipe_split=pipe["split"])
     w.expect_block = False
     mod, _ = simmp.make_module()
+    w.mp_module = mod
     env = SimEnv(w, mod)
     box = {}
 
@@ -379,6 +523,9 @@ def run_sim_scenario(fn, seed, pipe=None):
             raise
         w.parent_atexit()
 
+    global ENV_REAL, SIM_KILL_SELF
+    ENV_REAL = False
+    SIM_KILL_SELF = env.kill_self
     simmp.WORLD = w
     main = k.add_task("MainProcess", "P", "P", 0, body)
     main.proc = w.parent
